@@ -762,12 +762,327 @@ async fn pc_modes(run: &mut Run) {
     }
 }
 
+// ---------------------------------------------------------------------------------------------
+// wire tap on real PeerConnections: everything above RtpTransport (NACK/RTX retransmission, sender
+// reports, PLI/feedback, close-time BYE, key installation by setup_srtp / setup_sdes)
+
+mod tap {
+    use super::*;
+    use rustrtc::media::frame::{MediaSample, VideoFrame};
+    use rustrtc::{MediaKind, PeerConnection, RtcConfiguration, RtpCodecParameters, SdpType, SessionDescription, SrtpProfile, TransceiverDirection, TransportMode};
+    use std::sync::atomic::{AtomicBool, AtomicU64, Ordering};
+
+    pub const MARKER: &[u8] = b"C14-PLAINTEXT-MARKER-C14-PLAINTEXT-MARKER";
+    pub const INJECT: &[u8] = b"C14-INJECTED-CLEAR-C14-INJECTED-CLEAR";
+
+    /// UDP man in the middle: peer 1 is told peer 2 lives at `a`, peer 2 is told peer 1 lives at `b`.
+    pub struct Relay {
+        pub a: Arc<tokio::net::UdpSocket>,
+        pub b: Arc<tokio::net::UdpSocket>,
+        pub pc1: Mutex<Option<SocketAddr>>,
+        pub pc2: Mutex<Option<SocketAddr>>,
+        /// (direction 1 = peer1→peer2 / 2 = peer2→peer1, datagram) in arrival order
+        pub log: Mutex<Vec<(u8, Vec<u8>)>>,
+        pub lossy: AtomicBool,
+        n_media: AtomicU64,
+        pub dropped: AtomicU64,
+    }
+    impl Relay {
+        pub async fn new() -> Arc<Relay> {
+            let a = Arc::new(tokio::net::UdpSocket::bind("127.0.0.1:0").await.unwrap());
+            let b = Arc::new(tokio::net::UdpSocket::bind("127.0.0.1:0").await.unwrap());
+            let r = Arc::new(Relay { a, b, pc1: Mutex::new(None), pc2: Mutex::new(None), log: Mutex::new(vec![]),
+                lossy: AtomicBool::new(false), n_media: AtomicU64::new(0), dropped: AtomicU64::new(0) });
+            for dir in [1u8, 2u8] {
+                let r2 = r.clone();
+                tokio::spawn(async move {
+                    let mut buf = vec![0u8; 4096];
+                    loop {
+                        let (sock_in, sock_out) = if dir == 1 { (&r2.a, &r2.b) } else { (&r2.b, &r2.a) };
+                        let Ok((n, from)) = sock_in.recv_from(&mut buf).await else { break };
+                        let dg = buf[..n].to_vec();
+                        if dir == 1 { *r2.pc1.lock() = Some(from); } else { *r2.pc2.lock() = Some(from); }
+                        let is_media = n >= 2 && (128..192).contains(&dg[0]);
+                        r2.log.lock().push((dir, dg.clone()));
+                        // induced loss on the media direction: every 6th RTP packet (not RTCP) is withheld
+                        if dir == 1 && is_media && !rustrtc::rtp::is_rtcp(&dg) && r2.lossy.load(Ordering::Relaxed) {
+                            let k = r2.n_media.fetch_add(1, Ordering::Relaxed);
+                            if k % 6 == 5 { r2.dropped.fetch_add(1, Ordering::Relaxed); continue; }
+                        }
+                        let to = if dir == 1 { *r2.pc2.lock() } else { *r2.pc1.lock() };
+                        if let Some(to) = to { let _ = sock_out.send_to(&dg, to).await; }
+                    }
+                });
+            }
+            r
+        }
+    }
+
+    /// rewrite the transport addresses of an SDP (host candidates, or c=/m= in the ICE-less modes) to `to`;
+    /// returns the rewritten text and the peer's real address
+    pub fn readdress(sdp: &str, to: SocketAddr) -> (String, Option<SocketAddr>) {
+        let mut real: Option<SocketAddr> = None;
+        let mut conn_ip: Option<String> = None;
+        let has_cand = sdp.contains("a=candidate:");
+        let mut out = String::new();
+        for line in sdp.lines() {
+            let line = line.trim_end_matches('\r');
+            if let Some(rest) = line.strip_prefix("a=candidate:") {
+                let f: Vec<&str> = rest.split(' ').collect();
+                if f.len() >= 8 && f[2].eq_ignore_ascii_case("udp") {
+                    if real.is_none() { real = format!("{}:{}", f[4], f[5]).parse().ok(); } else { continue; }
+                    let mut g: Vec<String> = f.iter().map(|x| x.to_string()).collect();
+                    g[4] = to.ip().to_string(); g[5] = to.port().to_string();
+                    out.push_str(&format!("a=candidate:{}\r\n", g.join(" ")));
+                }
+                continue;
+            }
+            if !has_cand {
+                if let Some(rest) = line.strip_prefix("c=IN IP4 ") { conn_ip = Some(rest.to_string()); out.push_str(&format!("c=IN IP4 {}\r\n", to.ip())); continue; }
+                if line.starts_with("m=") {
+                    let f: Vec<&str> = line.split(' ').collect();
+                    if real.is_none() && f.len() > 2 { real = conn_ip.as_ref().and_then(|ip| format!("{}:{}", ip, f[1]).parse().ok()); }
+                    let mut g: Vec<String> = f.iter().map(|x| x.to_string()).collect();
+                    if g.len() > 2 { g[1] = to.port().to_string(); }
+                    out.push_str(&g.join(" ")); out.push_str("\r\n");
+                    continue;
+                }
+            }
+            out.push_str(line); out.push_str("\r\n");
+        }
+        (out, real)
+    }
+
+    struct Watch { seen_inject: AtomicBool, seen_marker: AtomicU64 }
+    impl RtpObserver for Watch {
+        fn on_ingress(&self, p: &RtpPacket, _a: SocketAddr) {
+            if contains(&p.payload, INJECT) { self.seen_inject.store(true, Ordering::Relaxed); }
+            if contains(&p.payload, MARKER) { self.seen_marker.fetch_add(1, Ordering::Relaxed); }
+        }
+    }
+    pub fn contains(h: &[u8], n: &[u8]) -> bool { h.windows(n.len()).any(|w| w == n) }
+
+    /// authenticity of one outbound media datagram under the sender's negotiated tx keys
+    pub struct WireAuth { profile: SrtpProfile, key: Vec<u8>, salt: Vec<u8>, rtp_auth: Vec<u8>, rtcp_auth: Vec<u8>, roc: HashMap<u32, (u32, u16)>, gcm: Option<Context> }
+    impl WireAuth {
+        pub fn new(profile: SrtpProfile, key: Vec<u8>, salt: Vec<u8>) -> WireAuth {
+            use ctr::cipher::{KeyIvInit, StreamCipher};
+            let kdf = |label: u8| { let mut iv = [0u8; 16]; iv[..salt.len().min(14)].copy_from_slice(&salt[..salt.len().min(14)]); iv[7] ^= label;
+                let mut out = vec![0u8; 20]; if key.len() >= 16 { let mut c = ctr::Ctr128BE::<aes::Aes128>::new_from_slices(&key[..16], &iv).unwrap(); c.apply_keystream(&mut out); } out };
+            let gcm = if matches!(profile, SrtpProfile::AeadAes128Gcm) { Context::new(&key, &salt, ProtectionProfile::AeadAes128Gcm, None, None).ok() } else { None };
+            WireAuth { profile, rtp_auth: kdf(0x01), rtcp_auth: kdf(0x04), key, salt, roc: HashMap::new(), gcm }
+        }
+        fn hmac(key: &[u8], parts: &[&[u8]], n: usize) -> Vec<u8> {
+            use hmac::Mac;
+            let mut m = <hmac::Hmac<sha1::Sha1> as hmac::digest::KeyInit>::new_from_slice(key).unwrap();
+            for p in parts { m.update(p); }
+            m.finalize().into_bytes()[..n].to_vec()
+        }
+        /// Ok(()) when the datagram is SRTP/SRTCP-protected under these keys; Err(reason) otherwise
+        pub fn check(&mut self, b: &[u8]) -> Result<(), &'static str> {
+            let rtcp = rustrtc::rtp::is_rtcp(b);
+            match self.profile {
+                SrtpProfile::AeadAes128Gcm => {
+                    let Some(ctx) = self.gcm.as_mut() else { return Err("no-reference-context") };
+                    if b.len() < 12 + 16 { return Err("too-short") }
+                    let r = if rtcp { if b[b.len() - 4] & 0x80 == 0 { return Err("srtcp-e-bit-clear") } ctx.decrypt_rtcp(b).map(|_| ()) } else { ctx.decrypt_rtp(b).map(|_| ()) };
+                    r.map_err(|_| "aead-tag-invalid")
+                }
+                SrtpProfile::Aes128Sha1_80 | SrtpProfile::Aes128Sha1_32 => {
+                    let _ = (&self.key, &self.salt);
+                    if rtcp {
+                        if b.len() < 8 + 4 + 10 { return Err("too-short") }
+                        if b[b.len() - 14] & 0x80 == 0 { return Err("srtcp-e-bit-clear") }
+                        if Self::hmac(&self.rtcp_auth, &[&b[..b.len() - 10]], 10) == b[b.len() - 10..] { Ok(()) } else { Err("tag-invalid") }
+                    } else {
+                        let n = if matches!(self.profile, SrtpProfile::Aes128Sha1_32) { 4 } else { 10 };
+                        if b.len() < 12 + n { return Err("too-short") }
+                        let ssrc = u32::from_be_bytes([b[8], b[9], b[10], b[11]]);
+                        let seq = u16::from_be_bytes([b[2], b[3]]);
+                        let (roc, last) = *self.roc.get(&ssrc).unwrap_or(&(0, seq));
+                        // candidates: same ROC, or the neighbours across a wrap
+                        for cand in [roc, roc.wrapping_add(1), roc.wrapping_sub(1)] {
+                            if Self::hmac(&self.rtp_auth, &[&b[..b.len() - n], &cand.to_be_bytes()], n) == b[b.len() - n..] {
+                                if cand > roc || (cand == roc && seq.wrapping_sub(last) < 0x8000) { self.roc.insert(ssrc, (cand, seq)); }
+                                return Ok(());
+                            }
+                        }
+                        Err("tag-invalid")
+                    }
+                }
+                _ => Err("profile-without-encryption"),
+            }
+        }
+    }
+
+    pub struct TapResult { pub kinds: std::collections::BTreeMap<String, u64>, pub fails: Vec<(String, String)>, pub profile: String }
+
+    fn kind_of(b: &[u8]) -> String {
+        if rustrtc::rtp::is_rtcp(b) { format!("rtcp-pt{}", b[1]) } else { format!("rtp-pt{}", b[1] & 0x7f) }
+    }
+
+    /// one session between two real PeerConnections through the relay
+    pub async fn session(mode: TransportMode, name: &str) -> anyhow::Result<TapResult> {
+        let relay = Relay::new().await;
+        let mk = || {
+            let mut c = RtcConfiguration::default();
+            c.transport_mode = mode.clone();
+            c.bind_ip = Some("127.0.0.1".into());
+            let mut caps = rustrtc::config::MediaCapabilities::default();
+            caps.video = vec![rustrtc::config::VideoCapability::vp8_with_rtx(97)];
+            c.media_capabilities = Some(caps);
+            PeerConnection::new(c)
+        };
+        let (pc1, pc2) = (mk(), mk());
+        let (source, track, _fb) = rustrtc::media::track::sample_track(rustrtc::media::frame::MediaKind::Video, 200);
+        let source = Arc::new(source);
+        let _sender = pc1.add_track(track.clone(), RtpCodecParameters { payload_type: 96, name: "VP8".into(), clock_rate: 90000, channels: 0 })?;
+        pc2.add_transceiver(MediaKind::Video, TransceiverDirection::RecvOnly);
+
+        let _ = pc1.create_offer().await?;
+        pc1.wait_for_gathering_complete().await;
+        let offer = pc1.create_offer().await?;
+        let (offer_txt, real1) = readdress(&offer.to_sdp_string(), relay.b.local_addr()?);
+        *relay.pc1.lock() = real1;
+        pc1.set_local_description(offer)?;
+        pc2.set_remote_description(SessionDescription::parse(SdpType::Offer, &offer_txt)?).await?;
+        let _ = pc2.create_answer().await?;
+        pc2.wait_for_gathering_complete().await;
+        let answer = pc2.create_answer().await?;
+        let (answer_txt, real2) = readdress(&answer.to_sdp_string(), relay.a.local_addr()?);
+        *relay.pc2.lock() = real2;
+        pc2.set_local_description(answer)?;
+        pc1.set_remote_description(SessionDescription::parse(SdpType::Answer, &answer_txt)?).await?;
+        tokio::try_join!(pc1.wait_for_connected(), pc2.wait_for_connected())?;
+
+        let t1 = pc1.verif_rtp_transports().0.first().cloned().ok_or_else(|| anyhow::anyhow!("peer 1 has no RtpTransport"))?;
+        let t2 = pc2.verif_rtp_transports().0.first().cloned().ok_or_else(|| anyhow::anyhow!("peer 2 has no RtpTransport"))?;
+        let watch = Arc::new(Watch { seen_inject: AtomicBool::new(false), seen_marker: AtomicU64::new(0) });
+        t2.add_observer(watch.clone());
+
+        // media from peer 1; the relay withholds every 6th RTP packet once the stream runs → NACK → RTX
+        let src2 = source.clone();
+        let stop = Arc::new(AtomicBool::new(false));
+        let stop2 = stop.clone();
+        let sender_task = tokio::spawn(async move {
+            let mut i = 0u32;
+            while !stop2.load(Ordering::Relaxed) {
+                let mut data = vec![0x10u8, 0, 0, 0];
+                data.extend_from_slice(MARKER); data.extend_from_slice(&i.to_be_bytes()); data.extend_from_slice(MARKER);
+                let frame = VideoFrame { rtp_timestamp: i.wrapping_mul(3000), data: Bytes::from(data), is_last_packet: true, ..Default::default() };
+                if src2.send(MediaSample::Video(frame)).is_err() { break; }
+                i += 1;
+                tokio::time::sleep(std::time::Duration::from_millis(15)).await;
+            }
+        });
+        let receiver = pc2.get_transceivers()[0].receiver().ok_or_else(|| anyhow::anyhow!("no receiver"))?;
+        let remote_track = receiver.track();
+        let delivered_inject = Arc::new(AtomicBool::new(false));
+        let di = delivered_inject.clone();
+        let reader = tokio::spawn(async move {
+            use rustrtc::media::MediaStreamTrack;
+            while let Ok(sample) = remote_track.recv().await {
+                if let MediaSample::Video(f) = sample { if contains(&f.data, INJECT) { di.store(true, Ordering::Relaxed); } }
+            }
+        });
+        tokio::time::sleep(std::time::Duration::from_millis(400)).await;
+        relay.lossy.store(true, Ordering::Relaxed);
+        tokio::time::sleep(std::time::Duration::from_millis(600)).await;
+        // feedback from the receiving side
+        let _ = receiver.request_key_frame().await;
+        // cleartext injected towards peer 2 from the address peer 2 trusts (the relay's b socket): RTP with the
+        // live stream's SSRC and payload type, and an RTCP BYE for it
+        let media_ssrc = relay.log.lock().iter().rev().find(|(d, b)| *d == 1 && b.len() > 12 && (128..192).contains(&b[0]) && !rustrtc::rtp::is_rtcp(b))
+            .map(|(_, b)| u32::from_be_bytes([b[8], b[9], b[10], b[11]])).unwrap_or(1);
+        if let Some(to) = *relay.pc2.lock() {
+            for k in 0..3u16 {
+                let mut payload = vec![0x10u8, 0, 0, 0]; payload.extend_from_slice(INJECT);
+                let mut h = RtpHeader::new(96, 40000 + k, 123456, media_ssrc); h.marker = true;
+                let _ = relay.b.send_to(&RtpPacket::new(h, payload).marshal().unwrap(), to).await;
+            }
+            let bye = rustrtc::rtp::marshal_rtcp_packets(&[RtcpPacket::Goodbye(Goodbye { sources: vec![media_ssrc], reason: Some("injected".into()) })]).unwrap();
+            let _ = relay.b.send_to(&bye, to).await;
+        }
+        // long enough for the first sender report (3 s after the stream started)
+        tokio::time::sleep(std::time::Duration::from_millis(2400)).await;
+        let marker_seen_by_peer2 = watch.seen_marker.load(Ordering::Relaxed);
+        stop.store(true, Ordering::Relaxed);
+        let _ = sender_task.await;
+        // negotiated keys, read from the sessions setup_srtp / setup_sdes installed
+        let k1 = t1.verif_lc_srtp_keying();
+        let k2 = t2.verif_lc_srtp_keying();
+        pc1.close();
+        pc2.close();
+        tokio::time::sleep(std::time::Duration::from_millis(150)).await;
+        reader.abort();
+
+        let mut fails = vec![];
+        let mut kinds = std::collections::BTreeMap::new();
+        let profile = k1.as_ref().map(|k| format!("{:?}", k.0)).unwrap_or("none".into());
+        let mut auth = [k1.map(|k| WireAuth::new(k.0, k.1, k.2)), k2.map(|k| WireAuth::new(k.0, k.1, k.2))];
+        let log = relay.log.lock().clone();
+        for (dir, b) in &log {
+            if b.len() < 2 || !(128..192).contains(&b[0]) { continue; } // STUN / DTLS
+            let kind = kind_of(b);
+            *kinds.entry(format!("dir{dir}:{kind}")).or_insert(0) += 1;
+            if contains(b, MARKER) { fails.push((format!("wire:payload-visible-in-clear:{name}:{kind}"), format!("direction {dir}, {} bytes", b.len()))); }
+            match auth[(*dir - 1) as usize].as_mut() {
+                None => fails.push((format!("wire:media-without-session-keys:{name}:{kind}"), format!("direction {dir}, {} bytes", b.len()))),
+                Some(a) => if let Err(why) = a.check(b) { fails.push((format!("wire:not-protected-under-negotiated-keys:{name}:{kind}"), format!("direction {dir}: {why}, {} bytes, first bytes {}", b.len(), crate::hex(&b[..b.len().min(16)])))); },
+            }
+        }
+        if watch.seen_inject.load(Ordering::Relaxed) { fails.push((format!("wire:injected-cleartext-reached-observer:{name}"), "on_ingress saw the injected clear RTP".into())); }
+        if delivered_inject.load(Ordering::Relaxed) { fails.push((format!("wire:injected-cleartext-reached-track:{name}"), "the remote track delivered the injected clear RTP".into())); }
+        kinds.insert("relay_dropped_rtp".into(), relay.dropped.load(Ordering::Relaxed));
+        kinds.insert("peer2_ingress_packets_with_marker".into(), marker_seen_by_peer2);
+        Ok(TapResult { kinds, fails, profile })
+    }
+}
+
+/// run the tapped sessions; what must have been seen on the wire for the session to count
+async fn wire_tap(run: &mut Run) {
+    use rustrtc::TransportMode;
+    for (mode, name) in [(TransportMode::WebRtc, "webrtc"), (TransportMode::Srtp, "srtp")] {
+        // RTX (pt 97), NACK (RTCP 205), PLI (206), SR (200), BYE (203), media (pt 96) in the sender direction
+        let need = ["dir1:rtp-pt96", "dir1:rtp-pt97", "dir2:rtcp-pt205", "dir2:rtcp-pt206", "dir1:rtcp-pt200", "dir1:rtcp-pt203"];
+        let mut last_err = String::from("not run");
+        let mut done = false;
+        for _attempt in 0..3 {
+            match tokio::time::timeout(std::time::Duration::from_secs(40), tap::session(mode.clone(), name)).await {
+                Ok(Ok(r)) => {
+                    let missing: Vec<&str> = need.iter().copied().filter(|k| r.kinds.get(*k).copied().unwrap_or(0) == 0).collect();
+                    for (sig, detail) in &r.fails { run.fail(sig, &format!("wire {name}"), detail); }
+                    if !r.fails.is_empty() || missing.is_empty() {
+                        for (k, v) in &r.kinds { run.count_n(&format!("wire_{name}_{k}"), *v); }
+                        run.notes.insert(format!("wire_{name}_profile"), serde_json::json!(r.profile));
+                        done = true;
+                        break;
+                    }
+                    last_err = format!("traffic kinds not seen on the wire: {missing:?} (seen {:?})", r.kinds);
+                    run.count("wire_session_incomplete_retry");
+                }
+                Ok(Err(e)) => { last_err = e.to_string(); run.count("wire_session_failed_retry"); }
+                Err(_) => { last_err = "timeout".into(); run.count("wire_session_timeout_retry"); }
+            }
+        }
+        if !done { run.fail(&format!("wire:not-checked:{name}"), &format!("wire {name}"), &last_err); }
+    }
+}
+
 pub fn run(args: &Args) {
     let rt = tokio::runtime::Builder::new_multi_thread().worker_threads(4).enable_all().build().unwrap();
     let mut run = Run::new("c14", &args.out);
     rt.block_on(async {
         let net = Net::new(NT).await;
         if let Some(case) = &args.replay {
+            if let Some(rest) = case.strip_prefix("wire ") {
+                let mode = match rest.trim() { "srtp" => rustrtc::TransportMode::Srtp, "rtp" => rustrtc::TransportMode::Rtp, _ => rustrtc::TransportMode::WebRtc };
+                match tap::session(mode, rest.trim()).await {
+                    Ok(r) => { println!("impl: profile {} kinds {:?}", r.profile, r.kinds); for (s, d) in r.fails.iter().take(20) { println!("ORACLE-FAIL {s} {d}"); } println!("{} oracle failures", r.fails.len()); }
+                    Err(e) => println!("session failed: {e}"),
+                }
+                return;
+            }
             let (cfg, ops) = parse_case(case);
             let (out, _) = exec(&net, &cfg, &ops).await;
             println!("impl: {}", out.events.join(" "));
@@ -776,6 +1091,8 @@ pub fn run(args: &Args) {
         }
         // (0) real PeerConnection pairs per transport mode: srtp_required of every transport object created
         pc_modes(&mut run).await;
+        // (0b) wire tap on real PeerConnections (NACK/RTX, SR, PLI, BYE, negotiated keys, injected cleartext)
+        wire_tap(&mut run).await;
         // (1) exhaustive: all sequences of length L over the 14-symbol alphabet × (source, target) mandatory flags
         let len = if args.tier_thorough { 5 } else { 4 };
         let total = NSYM.pow(len as u32);
